@@ -1349,6 +1349,53 @@ impl C15 {
                 }
             }
         }
+        // swaps: ALL tick-array slots at once hold empty accounts that are not this pool's tick-array addresses (fresh addresses,
+        // or the not-yet-created tick-array addresses of another pool): nothing to trade over, the swap must be refused
+        if is_swap {
+            let slots: Vec<usize> = (0..n_named).filter(|i| c.info.accounts[*i].starts_with("tick_array")).collect();
+            let other_pool = decode::pools(l).into_iter().map(|(k, _)| k).find(|k| !v.ix.accounts.iter().any(|m| m.pubkey == *k));
+            if !slots.is_empty() {
+                for (label, from_other) in [("fresh empty addresses", false), ("not-yet-created tick-array addresses of another pool", true)] {
+                    let mut ixn = v.ix.clone();
+                    let mut usable = true;
+                    for (n, si) in slots.iter().enumerate() {
+                        let k = if from_other {
+                            match other_pool {
+                                Some(op) => {
+                                    // a start index far from anything that exists
+                                    let mut start = 88 * 64 * (1000 + n as i32);
+                                    while l.exists(&ix::pda_tick_array(&op, start)) {
+                                        start += 88 * 64;
+                                    }
+                                    ix::pda_tick_array(&op, start)
+                                }
+                                None => {
+                                    usable = false;
+                                    break;
+                                }
+                            }
+                        } else {
+                            scratch_key(salt, 6950 + n as u64)
+                        };
+                        ixn.accounts[*si].pubkey = k;
+                    }
+                    if !usable {
+                        continue;
+                    }
+                    // no supplemental arrays either
+                    if ixn.accounts.len() > n_named && v.ix.data.last() != Some(&0) {
+                        continue;
+                    }
+                    let r = exec(l, ixn);
+                    cov.eval(format!("{}|all_tick_array_slots|{}", name, label));
+                    self.cell(format!("{} / all tick-array slots / {}", name, label), !r.ok);
+                    if r.ok {
+                        out.push(v15("foreign_account_accepted", idx, format!("{}: succeeded with {} in all of its tick-array slots", name, label)));
+                        return;
+                    }
+                }
+            }
+        }
         // two-hop: the same pool twice
         if matches!(name, "two_hop_swap" | "two_hop_swap_v2") {
             if let (Some(i1), Some(i2)) = (c.idx("whirlpool_one"), c.idx("whirlpool_two")) {
